@@ -80,7 +80,7 @@ func identityOrigin(v ssa.Value, fn *ssa.Function, seen map[ssa.Value]bool, dept
 			}
 			for _, rr := range *ia.Referrers() {
 				if s, ok := rr.(*ssa.Store); ok && s.Addr == ia && s.Val == ia.Index {
-					if _, isPhi := ia.Index.(*ssa.Phi); isPhi {
+					if isLoopCounter(ia.Index) {
 						return ""
 					}
 				}
@@ -107,7 +107,7 @@ func identityOrigin(v ssa.Value, fn *ssa.Function, seen map[ssa.Value]bool, dept
 				}
 				for _, rr := range *ia.Referrers() {
 					if s, ok := rr.(*ssa.Store); ok && s.Addr == ia {
-						if _, isPhi := s.Val.(*ssa.Phi); !isPhi {
+						if !isLoopCounter(s.Val) {
 							return "an appended element is not the loop counter"
 						}
 					}
@@ -163,6 +163,23 @@ func lenIsAttributeLength(v ssa.Value) bool {
 			}
 		}
 		return len(x.Edges) > 0
+	}
+	return false
+}
+
+// isLoopCounter: a loop-carried counter — the φ of a counted loop, or φ+1 (the counter of a range loop, whose φ
+// starts at -1).
+func isLoopCounter(v ssa.Value) bool {
+	switch x := v.(type) {
+	case *ssa.Phi:
+		return true
+	case *ssa.BinOp:
+		if x.Op == token.ADD {
+			if _, ok := x.X.(*ssa.Phi); ok {
+				k, ok := ssau.ConstInt(x.Y)
+				return ok && k == 1
+			}
+		}
 	}
 	return false
 }
